@@ -421,6 +421,51 @@ def rsh_divrem_hensel_qr_1 (x : List Nat) (d s cin : Nat) : List Nat × Nat :=
 
 /-! ### mpn_divrem_1, mpn_mod_1, mpn_preinv_mod_1 -/
 
+/-- divrem_1.c:115-167, divisor normalised: `ms` = dividend limbs most significant first, then `frac`
+    zero limbs.  Returns (quotient most significant first, remainder). -/
+def divrem1Norm (ms frac : List Nat) (d : Nat) : List Nat × Nat :=
+  let (qh, r, ms) :=
+    match ms with
+    | [] => ([], 0, [])
+    | top :: rest =>                                     -- :117-128 high quotient limb is 0 or 1
+        let r := top
+        let q := if r ≥ d then 1 else 0
+        let r := (r + B - (d &&& ((B - q) % B))) % B
+        ([q], r, rest)
+  let n := ms.length + frac.length
+  if BELOW_THRESHOLD n Gen.DIVREM_1_NORM_THRESHOLD then
+    let (qs, r) := plainLoop d (ms ++ frac) r            -- :132-146
+    (qh ++ qs, r)
+  else
+    let dinv := invert_limb d                            -- :150-166
+    let (qs, r) := preinvLoop d dinv (ms ++ frac) r
+    (qh ++ qs, r)
+
+/-- divrem_1.c:169-250, most significant bit of the divisor clear. -/
+def divrem1Unnorm (ms frac : List Nat) (d : Nat) : List Nat × Nat :=
+  let (qh, r, ms) :=                                     -- :176-189 skip a division if high < divisor
+    match ms with
+    | [] => ([], 0, [])
+    | n1 :: rest => if n1 < d then ([0], n1, rest) else ([], 0, n1 :: rest)
+  let n := ms.length + frac.length
+  if n = 0 then (qh, r) else                             -- :184-185
+  if Gen.UDIV_NEEDS_NORMALIZATION = 0 && BELOW_THRESHOLD n Gen.DIVREM_1_UNNORM_THRESHOLD then  -- :191-193 goto plain
+    let (qs, r) := plainLoop d (ms ++ frac) r
+    (qh ++ qs, r)
+  else
+    let norm := count_leading_zeros d                    -- :195-197
+    let d := (d <<< norm) % B
+    let r := (r <<< norm) % B
+    let dinv := invert_limb d                            -- :224-250
+    let (q1, r) :=
+      match ms with
+      | [] => ([], r)
+      | n1 :: rest =>
+          let r := r ||| (n1 >>> (64 - norm))
+          unnormLoop d dinv norm n1 rest r
+    let (q2, r) := preinvLoop d dinv frac r
+    (qh ++ q1 ++ q2, r >>> norm)
+
 /-- mpn_divrem_1 (mpn/generic/divrem_1.c:83-251): `qxn` fraction limbs, dividend `u`, divisor d ≠ 0.
     Returns (un + qxn quotient limbs least significant first, remainder). -/
 def divrem_1 (qxn : Nat) (u : List Nat) (d : Nat) : List Nat × Nat :=
@@ -434,72 +479,43 @@ def divrem_1 (qxn : Nat) (u : List Nat) (d : Nat) : List Nat × Nat :=
     (q, r)
   else if qxn = 0 then divrem_euclidean_qr_1 u d        -- :109-111, HAVE_NATIVE_mpn_divrem_euclidean_qr_1
   else
-  let frac := List.replicate qxn 0
-  if d &&& HIGHBIT != 0 then                             -- :115
-    let (qh, r, ms, n) :=
-      match u.reverse with
-      | [] => ([], 0, [], n)
-      | top :: rest =>                                   -- :117-128 high quotient limb is 0 or 1
-          let r := top
-          let q := if r ≥ d then 1 else 0
-          let r := (r + B - (d &&& ((B - q) % B))) % B
-          ([q], r, rest, n - 1)
-    if BELOW_THRESHOLD n Gen.DIVREM_1_NORM_THRESHOLD then
-      let (qs, r) := plainLoop d (ms ++ frac) r          -- :132-146
-      ((qh ++ qs).reverse, r)
-    else
-      let dinv := invert_limb d                          -- :150-166
-      let (qs, r) := preinvLoop d dinv (ms ++ frac) r
-      ((qh ++ qs).reverse, r)
+    let (q, r) :=
+      if d &&& HIGHBIT != 0 then divrem1Norm u.reverse (List.replicate qxn 0) d      -- :115
+      else divrem1Unnorm u.reverse (List.replicate qxn 0) d
+    (q.reverse, r)
+
+/-- mod_1.c:76-111, divisor normalised; `top :: rest` = dividend most significant first. -/
+def mod1Norm (top : Nat) (rest : List Nat) (d : Nat) : Nat :=
+  let r := if top ≥ d then (top + B - d) % B else top
+  if rest.isEmpty then r
+  else if BELOW_THRESHOLD rest.length Gen.MOD_1_NORM_THRESHOLD then (plainLoop d rest r).2
   else
-    let (qh, r, ms, n) :=                                -- :176-189 skip a division if high < divisor
-      match u.reverse with
-      | [] => ([], 0, [], n)
-      | n1 :: rest => if n1 < d then ([0], n1, rest, n - 1) else ([], 0, n1 :: rest, n)
-    if n = 0 then (qh.reverse, r) else
-    if Gen.UDIV_NEEDS_NORMALIZATION = 0 && BELOW_THRESHOLD n Gen.DIVREM_1_UNNORM_THRESHOLD then  -- :191-193 goto plain
-      let (qs, r) := plainLoop d (ms ++ frac) r
-      ((qh ++ qs).reverse, r)
+    let inv := invert_limb d
+    (preinvLoop d inv rest r).2
+
+/-- mod_1.c:112-179, most significant bit of the divisor clear. -/
+def mod1Unnorm (top : Nat) (rest : List Nat) (d : Nat) : Nat :=
+  let (r, ms) := if top < d then (top, rest) else (0, top :: rest)    -- :117-125
+  match ms with
+  | [] => r
+  | n1 :: ns =>
+    if Gen.UDIV_NEEDS_NORMALIZATION = 0 && BELOW_THRESHOLD ms.length Gen.MOD_1_UNNORM_THRESHOLD then
+      (plainLoop d ms r).2
     else
-      let norm := count_leading_zeros d                  -- :195-197
+      let norm := count_leading_zeros d              -- :133-137
       let d := (d <<< norm) % B
-      let r := (r <<< norm) % B
-      let dinv := invert_limb d                          -- :224-250
-      let (q1, r) :=
-        match ms with
-        | [] => ([], r)
-        | n1 :: rest =>
-            let r := r ||| (n1 >>> (64 - norm))
-            unnormLoop d dinv norm n1 rest r
-      let (q2, r) := preinvLoop d dinv frac r
-      ((qh ++ q1 ++ q2).reverse, r >>> norm)
+      let r := ((r <<< norm) % B) ||| (n1 >>> (64 - norm))
+      let inv := invert_limb d                       -- :156-176
+      let (_, r) := unnormLoop d inv norm n1 ns r
+      r >>> norm
 
 /-- mpn_mod_1 (mpn/generic/mod_1.c:56-180); un = 0 gives 0; d ≠ 0. -/
 def mod_1 (u : List Nat) (d : Nat) : Nat :=
   match u.reverse with
   | [] => 0
   | top :: rest =>
-    if d &&& HIGHBIT != 0 then                           -- :76
-      let r := if top ≥ d then (top + B - d) % B else top
-      if rest.isEmpty then r
-      else if BELOW_THRESHOLD rest.length Gen.MOD_1_NORM_THRESHOLD then (plainLoop d rest r).2
-      else
-        let inv := invert_limb d
-        (preinvLoop d inv rest r).2
-    else
-      let (r, ms) := if top < d then (top, rest) else (0, top :: rest)    -- :117-125
-      match ms with
-      | [] => r
-      | n1 :: ns =>
-        if Gen.UDIV_NEEDS_NORMALIZATION = 0 && BELOW_THRESHOLD ms.length Gen.MOD_1_UNNORM_THRESHOLD then
-          (plainLoop d ms r).2
-        else
-          let norm := count_leading_zeros d              -- :133-137
-          let d := (d <<< norm) % B
-          let r := ((r <<< norm) % B) ||| (n1 >>> (64 - norm))
-          let inv := invert_limb d                       -- :156-176
-          let (_, r) := unnormLoop d inv norm n1 ns r
-          r >>> norm
+    if d &&& HIGHBIT != 0 then mod1Norm top rest d   -- :76
+    else mod1Unnorm top rest d
 
 /-- mpn_preinv_mod_1 (mpn/generic/preinv_mod_1.c:34-53); un ≥ 1, d normalised, dinv = invert_limb d. -/
 def preinv_mod_1 (u : List Nat) (d dinv : Nat) : Nat :=
